@@ -4,5 +4,6 @@ CONSTANTS
   Senders <- S2
   PopMode = "identity"
   MaxSends = 1
+  DirectSenders <- D1
 PROPERTY Terminates
 CHECK_DEADLOCK FALSE
